@@ -68,6 +68,20 @@ def env_knobs(rng, knobs, unusable_tmp=False):
     return knobs
 
 
+RARE_KINDS = ["CHMOD", "COPY", "FSYNC", "LINK", "MKDIR", "SYMLINK", "TRUNCATE", "RMDIR"]
+
+
+def unseen_ops_fault(rng, ops):
+    """Calls the fault-free run never makes (chmod, fsync, link, truncate, copy_file_range, ...) cannot be addressed by
+    operation number - but code that starts making them has to cope with their failure as well (a file system without
+    permissions or without fsync, a sandbox that refuses the call).  One class-addressed fault: every such call fails."""
+    seen = {o.kind for o in ops}
+    kinds = [k for k in RARE_KINDS if k not in seen]
+    if not kinds:
+        return None
+    return {"from": 1, "kinds": kinds, "act": "fail", "errno": rng.choice(["EPERM", "EOPNOTSUPP", "ENOSYS", "EIO", "EACCES"])}
+
+
 def base_plan(plan):
     return {"seed": plan.get("seed", 1), "perm": plan.get("perm", False), "faults": []}
 
